@@ -103,7 +103,12 @@ def cmdBuild (st : DrvState) (fe : String) (ty : Nat) (geom : String) (mode : St
       | (b, .error e) => (b, [showBErr e])
     | none => runCalls (mode == "stop") calls (BState.new rows cols) []
   let stopped := mode == "stop" && res.getLast? != some "ok" && !res.isEmpty
-  let resS := if mode == "stop" then (if stopped then res.getLast?.getD "ok" else "ok") else ",".intercalate res
+  -- "resume": `extend_iter(&mut it)` called again and again on the SAME iterator until it is
+  -- exhausted; each call ends at its first rejected item (whose error it returns) or at the
+  -- end (`ok`); nothing but the rejected items is lost, so the builder sees the calls one by one
+  let resS := if mode == "stop" then (if stopped then res.getLast?.getD "ok" else "ok")
+    else if mode == "resume" then ",".intercalate (res.filter (· != "ok") ++ ["ok"])
+    else ",".intercalate res
   if stopped then
     (st, s!"build {resS} | fin=skipped")
   else
